@@ -10,7 +10,7 @@ RULE = ("contracts on is_prime/next_prime/factorization/gcd/lcm against a sieve,
         "table-boundary values + large known primes. non-trivial key = (function, construction class, value or size)")
 ASSUMPTIONS = ["reference sieve / deterministic MR bases 2..37 (Sorenson-Webster bound) / trial division in vf/ref/nt.py",
                "Mersenne exponents 521, 607, 1279, 2203 are prime (published)", "curve p and n are prime (checked by reference MR)"]
-REQUIRED = {"quick": ["first_use_calls", "first_use_systematic", "is_prime.proth", "reentrant_calls", "is_prime.exhaustive", "is_prime.strong_pseudoprime", "is_prime.carmichael", "is_prime.close_semiprime",
+REQUIRED = {"quick": ["first_use_calls", "first_use_systematic", "is_prime.proth", "reentrant_calls", "is_prime.exhaustive", "is_prime.strong_pseudoprime", "is_prime.spsp_family", "is_prime.carmichael", "is_prime.close_semiprime",
                       "is_prime.table_boundary", "is_prime.large_prime", "is_prime.rand64", "next_prime.exhaustive",
                       "next_prime.gap", "factorization.exhaustive", "factorization.beyond_table", "gcd", "lcm"]}
 EXHAUSTIVE = {"quick": ["is_prime: every n in [-10, 2^18]", "next_prime: every n in [-3, 2^14]", "factorization: every n < 2^14"],
@@ -48,6 +48,9 @@ def shards(tier, seed):
     out.append(("isprime_large", dict(kind="isprime_large", big=not q)))
     out.append(("isprime_proth", dict(kind="isprime_proth", mmax=3400 if q else 4000)))
     out.append(("pseudoprime_families", dict(kind="pseudoprime_families", qmax=600)))
+    sp_hi, sp_n = (240000, 6) if q else (4000000, 32)
+    for i in range(sp_n):
+        out.append(("spsp_search_%d" % i, dict(kind="spsp_search", lo=3 + i * sp_hi // sp_n, hi=3 + (i + 1) * sp_hi // sp_n)))
     if not q:
         # one member above 3000 bits: next_prime has to walk to the true next prime there, minutes of Miller-Rabin by itself
         out.append(("pseudoprime_families_3000", dict(kind="pseudoprime_families", qmax=3002, qmin=3000)))
@@ -77,6 +80,19 @@ def shards(tier, seed):
 def _r(fn, *args):
     return ("from ecdsa import numbertheory as NT\ntry:\n    print('library:', NT.%s(%s))\nexcept Exception as e:\n    print('library raised', type(e).__name__, e)\n"
             % (fn, ", ".join(repr(a) for a in args)))
+
+
+class _IterOnly(object):
+    """Re-iterable, and nothing else: no __len__, no __getitem__, no __next__."""
+
+    def __init__(self, vals):
+        self._v = list(vals)
+
+    def __iter__(self):
+        return iter(self._v)
+
+    def __repr__(self):
+        return "IterOnly(%r)" % (self._v,)
 
 
 def chk_isprime(ctx, n, want, cls, key=None):
@@ -206,6 +222,43 @@ def run(ctx, name, kind, **kw):
             chk_isprime(ctx, p, True, "is_prime.large_prime", key="rand%d" % bits)
             q = nt.random_prime(bits // 2 + 1, rng)
             chk_isprime(ctx, q * nt.random_prime(bits // 2, rng), False, "is_prime.large_composite", key="semi%d" % bits)
+    elif kind == "spsp_search":
+        # strong pseudoprimes are not spread evenly: almost all of them below 10^15 are products p*q with q - 1 = r (p - 1) for a small r.
+        # Every such product in the range is built and those that the reference finds to be strong pseudoprimes to base 2 are given to
+        # is_prime / next_prime - this reaches the composites that fool SEVERAL small bases at once (a table of "enough bases below a
+        # bound" with a wrong bound shows only on them), without relying on a published list
+        found = {1: 0, 2: 0, 3: 0, 4: 0}
+        pr = nt.next_prime(kw["lo"])
+        while pr < kw["hi"]:
+            for r in range(2, 14):
+                qq = r * (pr - 1) + 1
+                n_ = pr * qq
+                if n_ >= 1 << 64:
+                    break
+                d_, s_ = n_ - 1, 0
+                while d_ % 2 == 0:
+                    d_ //= 2
+                    s_ += 1
+                if nt._mr_witness(2, n_, d_, s_) or not nt.is_prime(qq):
+                    continue
+                nb = 1
+                for a_ in (3, 5, 7):
+                    if nt._mr_witness(a_, n_, d_, s_):
+                        break
+                    nb += 1
+                found[nb] += 1
+                chk_isprime(ctx, n_, False, "is_prime.spsp_family", key="bases%d|%d" % (nb, n_ % 64) if nb > 1 else "bases1|r%d" % r)
+                if nb >= 2:
+                    ctx.case("next_prime.spsp_family", key=n_)
+                    try:
+                        g_ = NT.next_prime(n_ - 1)
+                    except Exception as ex:
+                        g_ = "raised %s: %s" % (type(ex).__name__, ex)
+                    ctx.check(g_ != n_ and not isinstance(g_, str), "next_prime_returns_composite", "next_prime(%d) returned %r; %d = %d * %d is a strong pseudoprime to the first %d prime bases" % (
+                        n_ - 1, g_, n_, pr, qq, nb), dict(n=n_))
+            pr = nt.next_prime(pr)
+        for k_, v_ in found.items():
+            ctx.count("spsp_family.strong_to_first_%d_bases" % k_, v_)
     elif kind == "pseudoprime_families":
         # composite Mersenne numbers 2^q - 1 (q prime) and composite Fermat numbers 2^(2^k) + 1 are strong pseudoprimes to base 2 - the
         # classical trap for a Miller-Rabin that economises on bases.  next_prime(N - 1) must not answer N (N is certified composite
@@ -471,6 +524,11 @@ def run(ctx, name, kind, **kw):
             for v in vals:
                 l = l * v // nt.gcd(l, v)
             forms = [("iter", (list(vals),)), ("tuple", (tuple(vals),))]
+            # "one iterable": every kind of iterable, not only sequences - one-shot iterators, sets, views, an object that has nothing but __iter__
+            import collections as _c
+            # (one-shot iterators are made afresh for every call: a callable in the argument slot is called to get the argument)
+            forms += [("generator", (lambda: (v_ for v_ in vals),)), ("iterator", (lambda: iter(list(vals)),)), ("frozenset", (frozenset(vals),)), ("dict_keys", (dict.fromkeys(vals).keys(),)),
+                      ("deque", (_c.deque(vals),)), ("iter_only_object", (_IterOnly(vals),)), ("map", (lambda: map(int, vals),))]
             if k > 1:
                 forms.append(("args", tuple(vals)))
             if k == 1:
@@ -478,14 +536,14 @@ def run(ctx, name, kind, **kw):
             for fname, args in forms:
                 for fn, want, cls in ((NT.gcd, g, "gcd"), (NT.lcm, l, "lcm")):
                     try:
-                        got = fn(*args)
+                        got = fn(*[x_() if callable(x_) else x_ for x_ in args])
                     except Exception as e:
                         ctx.case(cls, key="%s|%d" % (fname, k))
-                        ctx.violation(cls + "_raises", "%s%r raised %s" % (cls, args, type(e).__name__), dict(args=args))
+                        ctx.violation(cls + "_raises", "%s of %r given as %s raised %s: %s" % (cls, vals, fname, type(e).__name__, e), dict(vals=vals, form=fname))
                         continue
                     ctx.case(cls, key="%s|%d" % (fname, k))
-                    ctx.check(got == want, cls + "_wrong", "%s%r = %r, want %d" % (cls, args, got, want), dict(args=args, got=got, want=want),
-                              _r(cls, *args))
+                    ctx.check(got == want, cls + "_wrong", "%s of %r given as %s = %r, want %d" % (cls, vals, fname, got, want), dict(vals=vals, form=fname, got=repr(got), want=want),
+                              _r(cls, *args) if not any(callable(x_) for x_ in args) and fname in ("iter", "tuple", "args", "single") else None)
         # "any number of arguments": long lists in which ONE position decides the result (every position of lists of 2..40 values,
         # positions around 255..258, 511..514, 767..771, 1023..1025 and random ones of longer lists), as arguments, list, tuple and generator
         def long_case(N, i, fname):
